@@ -14,17 +14,10 @@ if st:
 a = run(["git", "-C", "/repo", "apply", "--index", os.path.abspath(patch)])
 if a.returncode:
     sys.exit("patch does not apply: " + a.stdout)
-x = "/tmp/fix-junit-%d.xml" % os.getpid()
 if "--no-test" not in sys.argv:
-    run(["/venv/bin/python", "-m", "pytest", "-q", "-p", "no:cacheprovider", "--timeout=900",
-         "--continue-on-collection-errors", "--junitxml=" + x], cwd="/repo")
-    import xml.etree.ElementTree as ET
-    ok = set()
-    for tc in ET.parse(x).getroot().iter("testcase"):
-        if not any(c.tag in ("failure", "error", "skipped") for c in tc):
-            ok.add("%s::%s" % (tc.get("classname"), tc.get("name")))
-    os.remove(x)
-    missing = stable - ok
+    sys.path.insert(0, os.path.dirname(os.path.abspath(__file__)))
+    import pinned
+    missing = pinned.lost_tests("/repo")
     if missing:
         run(["git", "-C", "/repo", "reset", "--hard", "-q"])
         sys.exit("pinned tests lost: %s" % sorted(missing))
